@@ -389,10 +389,15 @@ func (s *scen) describeWith(src []byte, ref func([]byte) ([]elem, error)) descri
 		d.cls = "Empty"
 		return d
 	}
-	var g interface{}
-	if err := json.Unmarshal(src, &g); err != nil {
+	if !json.Valid(src) {
 		d.cls = "Truncated"
 		return d
+	}
+	var g interface{}
+	dec := json.NewDecoder(bytes.NewReader(src))
+	dec.UseNumber() // a number of any magnitude is still JSON; whether it fits its field is the mirror's business
+	if err := dec.Decode(&g); err != nil {
+		hx.Fatal("valid JSON does not decode: %v", err)
 	}
 	switch g.(type) {
 	case nil:
